@@ -180,6 +180,19 @@ class Reproduce(Stream):
         case["subset"] = sorted(rng.sample(flat, rng.randint(1, len(flat))))
         case["uncovered"] = rng.choice([None, None, "zz-not-there", "zz-not-there>=1"])
         case["release"] = rng.choice(names)
+        # most of the time release a project for which the index has gained something (otherwise releasing it shows
+        # nothing), and prefer names that have more than one spelling
+        cand = [g[0] for g in gained if g[0] in case["universe"]]
+        if cand and rng.random() < 0.7:
+            spelled = [n for n in cand if any(ch in "-_." for ch in n)]
+            case["release"] = rng.choice(spelled if spelled and rng.random() < 0.6 else cand)
+        if rng.random() < 0.15:
+            # a project that exists only as a pre-release at first (it is pinned as such); finals appear later
+            leaf = rng.choice(names)
+            case["universe"][leaf] = {"2.0b1": []}
+            gained = [g for g in gained if g[0] != leaf] + [[leaf, "2.0", []], [leaf, "2.1", []]]
+            case["gained"] = gained
+            case["prerelease_pin"] = leaf
         case["release_typed"] = "".join((rng.choice("-_.") if ch in "-_." else (ch.swapcase() if rng.random() < 0.3 else ch)) for ch in case["release"])
         case["second_solution"] = rng.choice([None, "first", "second"])
         return case
@@ -304,9 +317,14 @@ class Reproduce(Stream):
         stack.repositories = tuple(list(stack.repositories)[:-1] + [idx4])
         sol_u = stack
         out["solutions_used"] = len(sols)
-        # the front as the loader built it, *before* the exclusion: the model applies `solutionFront` itself
-        sol_all = SolutionRepository(f1)
-        out["front_all"] = _front_universe(sol_all)
+        # the front as the loader built it, *before* the exclusion (the model applies `solutionFront` itself); with two
+        # solution files the first one that records a project answers for it
+        front_all = {}
+        for fsol in sols:
+            for n, vs in _front_universe(SolutionRepository(fsol)).items():
+                if GL.norm(n) not in {GL.norm(k) for k in front_all}:
+                    front_all[n] = vs
+        out["front_all"] = front_all
         case4 = dict(case, universe=U2, front=out["front_all"])
         run4 = SS.Run(case4, repo=sol_u)
         out["run4"] = run4.result()
@@ -329,8 +347,8 @@ class Reproduce(Stream):
 
     # ------------------------------------------------------------------------------------------
     def model_request(self, case, r):
-        if "run2" not in r:
-            return None
+        if "run2" not in r or case.get("prerelease_pin"):
+            return None        # the solver model knows final releases only (C03 decides pre-releases)
         case2 = dict(case, universe=_grow(case), front=r["front"])
         q2 = SS.model_request(case2, r["run2"])
         case4 = dict(case, universe=_grow(case), front=r["front_all"])
@@ -357,6 +375,8 @@ class Reproduce(Stream):
             p1 = r["pins1"]
             if any(GL.norm(n) in p1 and GL.V(v) > GL.V(p1[GL.norm(n)]["version"]) for n, v, _ in case["gained"]):
                 fl.append("newer-version-of-a-pin-available")
+        if case.get("prerelease_pin") and GL.norm(case["prerelease_pin"]) in r["pins1"]:
+            fl.append("pre-release-pin-in-solution")
         if case["opts"]["hashes"]:
             fl.append("hashes")
         if case["opts"]["urls"]:
